@@ -54,9 +54,11 @@ CLAIM = {
             'tol = 0 and tol > 0, the value sigma_bar the code computes is passed through and checked to be the '
             'geometric mean) and the decomposition is additionally checked by a first-principles oracle on every '
             'case, including inputs whose singular values equal sigma_bar exactly in binary64 (the no-rotation '
-            'branch). The theorems assume exact real arithmetic, the default tol (all singular values in use, all '
-            'positive) and take sigma_bar with sigma_bar^p = prod S; truncation by tol > 0 (p < min(m, n)) is '
-            'covered by correspondence only. KNOWN FINDING: the '
+            'branch). The theorems assume exact real arithmetic and take sigma_bar with sigma_bar^p = prod S (the '
+            'code expression exp(mean(log S)) has that property over the reals: '
+            'gmd_sigma_bar_is_geometric_mean); tol > 0 (p < min(m, n) singular values in use) is covered by '
+            'gmd_correct_truncated / gmd_correct_truncated_complex: Q R P^H is then the rank-p truncation U S_p V^H '
+            '(oracle gmd with tol > 0, class suffix :tol>0, and correspondence). KNOWN FINDING: the '
             'principal-angle chordal distance disagrees with the projector forms for subspaces of different '
             'dimension (negative witness chordal_angles_disagree_when_dims_differ). Four defects fixed in the '
             'worktree (whitening with repeated eigenvalues; get_principal_component_matrix integer dtype and wide '
@@ -671,6 +673,9 @@ def o_chordal_invariance(case):
 
 
 def o_gmd(case):
+    """first-principles check of the decomposition; with case['tol'] > 0 only the p = #{S >= tol} largest
+    singular values are in use and Q R P^H must be the rank-p truncation U S_p V^H (theorem
+    gmd_correct_truncated)"""
     _, _, misc, _ = _impl()
     var = case.get('var')
     a = twin(realize(case['A'], dict(var or {}, dtype=None, layout=None)))
@@ -680,22 +685,29 @@ def o_gmd(case):
         u, vh = u.astype(np.complex64 if np.iscomplexobj(u) else np.float32), vh.astype(np.complex64 if np.iscomplexobj(vh) else np.float32)
     lay = (var or {}).get('layout')
     u, vh = relayout(u, lay), relayout(vh, lay)
-    q, r, p = call('gmd', misc.gmd, u, s, vh)
-    k = min(m, n)
-    sfx = vtag(var)
+    tol0 = float(case.get('tol') or 0.0)
+    if tol0 > 0.0:
+        q, r, p = call('gmd', misc.gmd, u, s, vh, tol0)
+    else:
+        q, r, p = call('gmd', misc.gmd, u, s, vh)
+    k = int(np.sum(s >= tol0))
+    sfx = (':tol>0' if tol0 > 0.0 else '') + vtag(var)
     e0 = eps_of(u, vh) / EPS
-    tol = 1e-9 * max(1.0, (s[0] / s[-1])) * e0
+    tol = 1e-9 * max(1.0, (s[0] / s[k - 1])) * e0
     if q.shape != (m, m) or r.shape != (m, n) or p.shape != (n, n):
         return 'shape' + sfx, 'shapes %s %s %s' % (q.shape, r.shape, p.shape)
-    e = np.abs(twin(q) @ r @ H(twin(p)) - a).max() / nz(s[0])
+    sp = np.zeros((m, n))
+    sp[np.arange(k), np.arange(k)] = s[:k]
+    a_p = a if k == min(m, n) else twin(u) @ sp @ twin(vh)
+    e = np.abs(twin(q) @ r @ H(twin(p)) - a_p).max() / nz(s[0])
     if not e <= tol:
-        return 'does-not-reconstruct' + sfx, 'max |Q R P^H - A| / s1 = %.3e' % e
+        return 'does-not-reconstruct' + sfx, 'max |Q R P^H - A%s| / s1 = %.3e' % ('' if k == min(m, n) else '_p', e)
     e = max(np.abs(H(twin(q)) @ twin(q) - np.eye(m)).max(), np.abs(H(twin(p)) @ twin(p) - np.eye(n)).max())
     if not e <= tol:
         return 'factors-not-orthonormal' + sfx, 'max deviation %.3e' % e
     if np.any(np.tril(r, -1) != 0):
         return 'R-not-upper-triangular' + sfx, 'non-zero entry below the diagonal'
-    gm = math.exp(float(np.mean(np.log(s))))
+    gm = math.exp(float(np.mean(np.log(s[:k]))))
     e = np.abs(np.diag(r)[:k] - gm).max() / gm
     if not e <= tol:
         return 'diagonal-not-geometric-mean' + sfx, 'diag(R)=%r geometric mean=%r' % (np.diag(r)[:k].tolist(), gm)
@@ -2728,6 +2740,16 @@ def oracles(ctx, scale):
     for _ in range(6 * scale):     # repeated singular values: unitary and scaled-unitary matrices
         n = rng.randint(1, 6)
         run_oracle(ctx, 'gmd', {'A': enc(g.unitary(n, rng.chance(0.5)) * float(rng.randint(1, 4)))})
+    for _ in range(10 * scale):    # tol > 0: only the p largest singular values are in use (rank-p truncation)
+        a = gen_rect(g)
+        sv = np.linalg.svd(a, compute_uv=False)
+        if sv.size < 2:
+            continue
+        j = rng.randint(1, sv.size - 1)
+        if not sv[j - 1] > 1.001 * sv[j]:
+            continue
+        run_oracle(ctx, 'gmd', {'A': enc(a), 'tol': float(np.sqrt(sv[j - 1] * sv[j]))})
+        ctx.branch('gmd:oracle-tol>0')
     for _ in range(40 * scale):
         n = rng.randint(1, 8)
         c, kind = g.hpd(n, rng.chance(0.6))
@@ -2820,7 +2842,7 @@ def check(ctx):
                              'uisd:full-diagonal', 'uisd:short-diagonal', 'select:peig', 'select:leig',
                              'select:error', 'lrsv:wide', 'lrsv:tall-or-square', 'gpcm:wide',
                              'gpcm:tall-or-square', 'gmd:p=len(S)', 'gmd:p<len(S)',
-                             'gmd:singular-value-equals-mean-exactly', 'conversion']
+                             'gmd:singular-value-equals-mean-exactly', 'gmd:oracle-tol>0', 'conversion']
     for side in ('corr-', 'oracle-'):
         ctx.required_branches += [side + b for b in (
             'R1:float32/complex64', 'R1:integer-dtype', 'R1:scalar-int8', 'R1:scalar-uint8', 'R1:scalar-int16',
